@@ -1,0 +1,22 @@
+//go:build verif
+
+package converter
+
+import (
+	"github.com/go-shiori/dom"
+	"golang.org/x/net/html"
+)
+
+// VerifIsByline is the converter's byline test on the node (read-only).
+func VerifIsByline(node *html.Node) bool {
+	return isByline(node, dom.ClassName(node)+" "+dom.ID(node))
+}
+
+// VerifUnlikely reports the two "unlikely candidate" regexps on class+" "+id.
+func VerifUnlikely(node *html.Node) (unlikely, maybe bool) {
+	nodeData := dom.ClassName(node) + " " + dom.ID(node)
+	return rxUnlikelyCandidates.MatchString(nodeData), rxOkMaybeItsACandidate.MatchString(nodeData)
+}
+
+// VerifWithoutContent is isElementWithoutContent.
+func VerifWithoutContent(node *html.Node) bool { return isElementWithoutContent(node) }
